@@ -149,8 +149,35 @@ class LiteralEvaluator:
 		Returns:
 			結合結果
 		"""
-		quote = left[0]
-		return f'{quote}{left[1:-1]}{right[1:-1]}{quote}'
+		left_quote, left_body = self._unquote(left)
+		right_quote, right_body = self._unquote(right)
+		quote = left_quote[0]
+		# 結合後の引用符と衝突する文字を含む場合は不許可
+		assert len(left_quote) == 1 or not self._has_quote(left_body, quote)
+		assert right_quote == quote or not self._has_quote(right_body, quote)
+		return f'{quote}{left_body}{right_body}{quote}'
+
+	def _unquote(self, string: str) -> tuple[str, str]:
+		"""文字列リテラルを引用符と本体に分解
+
+		Args:
+			string: 文字列リテラル
+		Returns:
+			(引用符, 本体)
+		"""
+		quote = string[0] * 3 if len(string) >= 6 and string.startswith(string[0] * 3) and string.endswith(string[0] * 3) else string[0]
+		return quote, string[len(quote):-len(quote)]
+
+	def _has_quote(self, body: str, quote: str) -> bool:
+		"""文字列の本体にエスケープされていない引用符を含むか判定
+
+		Args:
+			body: 文字列リテラルの本体
+			quote: 引用符
+		Returns:
+			True = 含む
+		"""
+		return quote in body.replace('\\\\', '').replace(f'\\{quote}', '')
 
 	def on_argument(self, node: defs.Argument, label: Evaluator.Value, value: Evaluator.Value) -> Evaluator.Value:
 		return value
